@@ -291,6 +291,28 @@ func ruleC05_4(c *Ctx) {
 		c.touch(encl)
 		name := "hashkit.Hash call in " + shortFn(encl)
 		seen[shortFn(encl)]++
+		// the call sits in a helper shared by several anchors (`resp.addKey(key)`): look at it under the call site
+		// that belongs to this anchor
+		evalUnder := func(f func()) { f() }
+		if h := outermostFn(s.Fn); h != encl && p.isHelper(h) {
+			var mine []Site
+			for _, hs := range p.helperSites(h) {
+				for _, g := range p.family(encl) {
+					if g == outermostFn(hs.Fn) && hs.Call != nil {
+						mine = append(mine, hs)
+					}
+				}
+			}
+			if len(mine) == 1 {
+				site := mine[0]
+				evalUnder = func(f func()) {
+					siteCtx[h] = site
+					withBinding(h, site.Call.Args, f)
+					delete(siteCtx, h)
+				}
+			}
+		}
+		evalUnder(func() {
 		arg := strip(s.Call.Args[0])
 		// string(parseLine result #0) ?
 		fromParse := func(v ssa.Value) (*ssa.Call, bool) {
@@ -404,6 +426,7 @@ func ruleC05_4(c *Ctx) {
 		default:
 			c.ok(name+" (other)", c.at(s.Instr), "not on the routing path: "+expr(arg))
 		}
+		})
 		}
 	}
 	for _, need := range []string{"(*CRespCodec).Default", "(*CRespCodec).Eval", "(*CRespCodec).Frag1", "(*CRespCodec).Frag2", "(*SRespCodec).MGet"} {
